@@ -118,3 +118,125 @@ Print Assumptions C18_roundtrip.
 Print Assumptions C18_one_per_record.
 Print Assumptions C18_hitenum.
 Print Assumptions C18_row_okb.
+
+(* ================================================================== the files of a WHOLE RUN (model/Coordinator.v) ================ *)
+(* C18_roundtrip quantifies over row lists satisfying row_ok.  This section shows that the row lists Coordinator.program_run hands to
+   writeAlignments satisfy it: "every XMAP file COMA writes, including one with zero records, can be read back by the project's own
+   reader", at the level of the run model, for every seeding function with seeds_ok and every mode.
+   Hypotheses: SU <= 0 < MS; seeds_ok refs seeds; references with shift 0, strictly ascending positions and DISTINCT ids (the reader takes the
+   first map with the record's id: next(m for m in maps if m.moleculeId == id)); queries AS READ (q0s) with shift 0, strictly ascending
+   positions, at least one label, distinct ids; the run is on the trimmed queries (Program.__readMaps).
+   The reader is constructed with the two CMAP files as read: R = map xmap_of refs, Q = map xmap_of q0s (xmap_of m = (mid m, mpositions m);
+   trimming changes neither ids nor numbers of labels).
+   Printing: Record.xrow_of w = cigar_runs of the listed pairs, then Record.xrow_of_row (coordinates/lengths in tenths as they are, confidence
+   5 * conf: 1/20 -> hundredths).  row_ok asks nothing of coordinates, lengths or confidence (C18_codec_tenths / _hundredths are exact for all
+   integers), so the unit conversion needs no side condition.
+   A file (row list) is READABLE when cigarString succeeds on every row with at least one run (xs = the printed dicts), every printed record
+   satisfies row_ok R Q, and the reader returns XOk with exactly the alignments `expected` of C18_roundtrip: one per record, in order,
+   numbered from 1.
+   Covered without further hypothesis: every file that holds no joined row — _1 and _2 of `all`, _1 of `joined`, main and _1 of `separate`
+   (a file that was not written, o_1/o_2 = None, counts as the empty row list; an empty file is readable: C18_zero_records).
+   Main files of best / joined / all: every row is a valid matching (row_matching) or a joined row (joined_row: AlignmentResultRow.resolve of
+   two valid rows); they are readable under the EXPLICIT hypothesis that their joined rows are valid matchings — that hypothesis is not a
+   theorem (open finding F10: a joined row need not be a valid matching).
+   row_matching refs q0s w := exists r q0, In r refs /\ In q0 q0s /\ rid w = mid r /\ qid w = mid q0 /\
+                              valid_row (nlabels r) 1 (nlabels q0) (rrev w) (site_pairs (rsegs w))          (proofs/RunRecordProofs2.v)
+   joined_row refs q0s w   := exists a b, row_matching refs q0s a /\ row_matching refs q0s b /\ join_rows a b = Ok w *)
+Require Import Pairing Core Multi Coordinator Checkers CheckersProofs Cmap Record RecordProofs1 RunProofs2 RunProofs3
+  RunRecordProofs1 RunRecordProofs2 RunRecordProofs3.
+
+(* one record: a valid matching of labels of two maps of the files prints to a well-formed record *)
+Theorem C18_matching_row_ok (refs q0s : list Pairing.omap) (w : Multi.row) :
+  NoDup (map mid refs) -> NoDup (map mid q0s) -> row_matching refs q0s w ->
+  exists runs, cigar_runs (site_pairs (rsegs w)) = Ok runs /\ runs <> [] /\ xrow_of w = Ok (xrow_of_row w runs) /\
+               row_ok (map xmap_of refs) (map xmap_of q0s) (xrow_of_row w runs).
+Proof. exact (fun Hr Hq => matching_row_ok refs q0s Hr Hq w). Qed.
+
+Theorem C18_run_files_readable P (seeds : seeding) (refs q0s : list Pairing.omap) m maxdiff o :
+  SU P <= 0 -> 0 < MS P -> seeds_ok refs seeds ->
+  (forall r, In r refs -> mshift r = 0 /\ ascending r) ->
+  (forall q0, In q0 q0s -> mshift q0 = 0 /\ ascending q0 /\ mpositions q0 <> []) ->
+  NoDup (map mid refs) -> NoDup (map mid q0s) ->
+  program_run P seeds m maxdiff refs (map trim q0s) = Ok o ->
+  let R := map xmap_of refs in let Q := map xmap_of q0s in
+  let readable (rows : list Multi.row) :=
+    exists xs, mapM xrow_of rows = Ok xs /\
+      Forall2 (fun w x => exists runs, cigar_runs (site_pairs (rsegs w)) = Ok runs /\ runs <> [] /\ x = xrow_of_row w runs) rows xs /\
+      Forall (row_ok R Q) xs /\
+      xmap_read_lines (xmap_write_lines xs) R Q = XOk (map (expected R Q) (number xs)) /\
+      List.length (map (expected R Q) (number xs)) = List.length rows in
+  readable (opt_rows (o_1 o)) /\ readable (opt_rows (o_2 o)) /\
+  (m = Separate -> readable (o_main o)) /\
+  ((forall w, In w (o_main o) -> joined_row refs q0s w -> row_matching refs q0s w) -> readable (o_main o)) /\
+  (forall w, In w (o_main o) -> row_matching refs q0s w \/ (m <> Separate /\ joined_row refs q0s w)).
+Proof. exact (fun Hsu Hms Hs Hr Hq Hrid Hqid => run_files_readable P seeds refs q0s Hsu Hms Hs Hr Hq Hrid Hqid m maxdiff o). Qed.
+
+(* the same when the run is handed trimmed queries (trim leaves them unchanged; the reader gets them as they are) *)
+Theorem C18_run_files_readable_trimmed P (seeds : seeding) (refs qq : list Pairing.omap) m maxdiff o :
+  SU P <= 0 -> 0 < MS P -> seeds_ok refs seeds ->
+  (forall r, In r refs -> mshift r = 0 /\ ascending r) -> NoDup (map mid refs) ->
+  (forall q, In q qq -> trimmed q) -> NoDup (map mid qq) ->
+  program_run P seeds m maxdiff refs qq = Ok o ->
+  file_readable refs qq (opt_rows (o_1 o)) /\ file_readable refs qq (opt_rows (o_2 o)) /\
+  (m = Separate -> file_readable refs qq (o_main o)) /\
+  ((forall w, In w (o_main o) -> joined_row refs qq w -> row_matching refs qq w) -> file_readable refs qq (o_main o)) /\
+  (forall w, In w (o_main o) -> row_matching refs qq w \/ (m <> Separate /\ joined_row refs qq w)).
+Proof. exact (fun Hsu Hms Hs Hr Hrid => run_files_readable_trimmed P seeds refs Hsu Hms Hs Hr Hrid qq m maxdiff o). Qed.
+
+(* the fields that come back, in terms of the row that was printed: whole base pairs (truncation of tenths), the confidence in hundredths
+   = 5 * (confidence in 1/20), the rendered HitEnum, the listed site ids *)
+Theorem C18_run_record_fields R Q i (w : Multi.row) runs :
+  let a := expected R Q (i, xrow_of_row w runs) in
+  a_id a = i /\ a_qid a = qid w /\ a_rid a = Multi.rid w /\
+  a_qstart a = Z.quot (qs w) 10 /\ a_qend a = Z.quot (qe w) 10 /\ a_rstart a = Z.quot (rs w) 10 /\ a_rend a = Z.quot (re w) 10 /\
+  a_rev a = rrev w /\ a_conf a = 5 * conf w /\ a_cigar a = Some (render runs) /\
+  a_qlen a = Z.quot (qlen w) 10 /\ a_rlen a = Z.quot (rlen w) 10 /\
+  map (fun x => match x with (rsite, _, qsite, _, _) => (rsite, qsite) end) (a_pairs a) = site_pairs (rsegs w).
+Proof. exact (expected_of_row R Q i w runs). Qed.
+
+(* non-vacuity: the run of proofs/ModesExamples.v with its query read at an offset of 1234.5 bp (rr_q0s; reference rr_refs) meets the
+   hypotheses, and every file of every mode — written by xmap_write_lines from the rows of program_run, read back by xmap_read_lines with the
+   maps as read — comes back: per file (number of data lines, every printed record passes row_okb, alignments as (alignmentId, queryId,
+   referenceId, (qryStart, qryEnd, refStart, refEnd), reverseStrand, confidence, cigarString, (qryLen, refLen), [(rsite, qsite, distance)])).
+   `joined` with maxDifference just below the gap joins nothing: its main file has ZERO records and reads back as [] *)
+Example C18_run_files_nonvacuous :
+  SU ModesExamples.ex_P <= 0 /\ 0 < MS ModesExamples.ex_P /\ seeds_ok rr_refs ModesExamples.ex_seeds /\
+  (forall r, In r rr_refs -> mshift r = 0 /\ ascending r) /\
+  (forall q0, In q0 rr_q0s -> mshift q0 = 0 /\ ascending q0 /\ mpositions q0 <> []) /\
+  NoDup (map mid rr_refs) /\ NoDup (map mid rr_q0s) /\
+  let first_ := (1, 7, 1, (0, 51000, 10000, 61000), false, 600000, Some "6M"%string, (142001, 2000000),
+                 [(1, 1, 0); (2, 2, 0); (3, 3, 0); (4, 4, 0); (5, 5, 0); (6, 6, 0)]) in
+  let second_ i := (i, 7, 1, (92000, 142000, 72000, 122000), false, 600000, Some "6M"%string, (142001, 2000000),
+                    [(7, 7, 0); (8, 8, 0); (9, 9, 0); (10, 10, 0); (11, 11, 0); (12, 12, 0)]) in
+  let joined_ := (1, 7, 1, (0, 142000, 10000, 122000), false, 1200000, Some "12M"%string, (142001, 2000000),
+                  [(1, 1, 0); (2, 2, 0); (3, 3, 0); (4, 4, 0); (5, 5, 0); (6, 6, 0);
+                   (7, 7, 300000); (8, 8, 300000); (9, 9, 300000); (10, 10, 300000); (11, 11, 300000); (12, 12, 300000)]) in
+  rr_run_read Separate 110000 = Some (Some (1%nat, true, Some [first_]), Some (Some (1%nat, true, Some [second_ 1])), None) /\
+  rr_run_read Joined 109999 = Some (Some (0%nat, true, Some []), Some (Some (2%nat, true, Some [first_; second_ 2])), None) /\
+  rr_run_read All_ 110000 = Some (Some (1%nat, true, Some [joined_]), Some (Some (1%nat, true, Some [first_])), Some (Some (1%nat, true, Some [second_ 1]))) /\
+  rr_run_read Best 110000 = Some (Some (1%nat, true, Some [joined_]), None, None).
+Proof. split; [discriminate|]. split; [reflexivity|]. split; [exact RunProofs4.ex_seeds_ok|]. split; [exact rr_refs_ok|].
+  split; [exact rr_q0s_ok|]. split; [exact rr_rid|]. split; [exact rr_qid|]. vm_compute. repeat split; reflexivity. Qed.
+(* the data lines of the `joined` run's _1 file (two records, XmapEntryID 1 and 2) and what the reader returns for them, in full *)
+Example C18_run_file_in_full :
+  rr_run Joined 109999 =
+    Some (Some ([], XOk []),
+          Some (Some ([ ["1"; "7"; "1"; "0.0"; "51000.0"; "10000.0"; "61000.0"; "+"; "6000.00"; "6M"; "142001.0"; "2000000.0"; "False"; "1";
+                         "(1,1)(2,2)(3,3)(4,4)(5,5)(6,6)"];
+                        ["2"; "7"; "1"; "92000.0"; "142000.0"; "72000.0"; "122000.0"; "+"; "6000.00"; "6M"; "142001.0"; "2000000.0"; "True"; "1";
+                         "(7,7)(8,8)(9,9)(10,10)(11,11)(12,12)"] ]%string,
+                      XOk [ {| a_id := 1; a_qid := 7; a_rid := 1; a_qstart := 0; a_qend := 51000; a_rstart := 10000; a_rend := 61000; a_rev := false;
+                               a_conf := 600000; a_cigar := Some "6M"%string; a_qlen := 142001; a_rlen := 2000000;
+                               a_pairs := [(1, 100000, 1, 12345, 0); (2, 170000, 2, 82345, 0); (3, 290000, 3, 202345, 0);
+                                           (4, 380000, 4, 292345, 0); (5, 530000, 5, 442345, 0); (6, 610000, 6, 522345, 0)] |};
+                            {| a_id := 2; a_qid := 7; a_rid := 1; a_qstart := 92000; a_qend := 142000; a_rstart := 72000; a_rend := 122000; a_rev := false;
+                               a_conf := 600000; a_cigar := Some "6M"%string; a_qlen := 142001; a_rlen := 2000000;
+                               a_pairs := [(7, 720000, 7, 932345, 0); (8, 780000, 8, 992345, 0); (9, 910000, 9, 1122345, 0);
+                                           (10, 1005000, 10, 1217345, 0); (11, 1145000, 11, 1357345, 0); (12, 1220000, 12, 1432345, 0)] |} ])),
+          None).
+Proof. vm_compute. reflexivity. Qed.
+
+Print Assumptions C18_matching_row_ok.
+Print Assumptions C18_run_files_readable.
+Print Assumptions C18_run_files_readable_trimmed.
+Print Assumptions C18_run_record_fields.
